@@ -1154,7 +1154,8 @@ class DAG(nx.DiGraph):
         if isinstance(self, BayesianNetwork):
             bn = self
         else:
-            bn = BayesianNetwork(self.edges())
+            bn = BayesianNetwork(self.edges(), latents=self.latents)
+            bn.add_nodes_from(self.nodes())
 
         if estimator is None:
             estimator = MaximumLikelihoodEstimator
